@@ -239,8 +239,13 @@ impl Tokenizer
 					addr = naddr;
 				} else if img[addr]==DATA_TOK {
 					code += " DATA ";
-					let (escaped,naddr) = super::bytes_to_escaped_string_ex(img, addr+1,
+					let (mut escaped,naddr) = super::bytes_to_escaped_string_ex(img, addr+1,
 						&self.config.detokenizer.escapes, &[58,0], "tok_data");
+					// blanks that end the items are read as part of them again only behind an unquoted item
+					if escaped.ends_with(' ') && matches!(escaped.trim_end_matches(' ').chars().last(),None | Some(',') | Some('"')) {
+						escaped.pop();
+						escaped += "\\x20";
+					}
 					code += &escaped;
 					addr = naddr;
 				} else if img[addr]>127 {
